@@ -958,6 +958,12 @@ func (e *Env) evalCall(n *ast.CallExpr) Val {
 			return e.fail("offset of non-slice")
 		}
 		return intVal(v.Off, nil)
+	case "issentinel":
+		v := arg(0)
+		if v.K != KIface {
+			return e.fail("issentinel of non-interface")
+		}
+		return boolVal(sEq(v.Tag, fmt.Sprint(e.r.W.tagFor(types.NewPointer(types.Typ[types.Invalid])))))
 	case "whole":
 		// whole(p): p is null or points to a whole allocated object (not into the middle of one)
 		v := arg(0)
